@@ -41,6 +41,8 @@ def rhs_matrix(ode, max_tries: int | None = None) -> sympy.Matrix:
         If the maximum number of tries is reached
     """
     intermediates = {x.symbol: x.expr for x in ode.intermediates}
+    # An expression may also refer to a state derivative by name (``I_cap = Cm*dV_dt``)
+    intermediates.update({x.symbol: x.expr for x in ode.state_derivatives})
     rhs = sympy.Matrix([state.expr for state in ode.sorted_state_derivatives()])
 
     if max_tries is None:
